@@ -5,6 +5,15 @@
 //!   `init engine <n>`         a real `Engine` with `n` instruments on one exchange; every fill is an
 //!                             `AccountEventKind::Trade` processed by `Engine::process`, the exit is
 //!                             read from `EngineOutput::PositionExit` in the returned audit
+//!   `init enginex <E|D> <links> <spec>+`
+//!                             configuration-shape family: a real `Engine` assembled from one instrument per
+//!                             `<spec>` = `<exchange label 0..2><kind s|p|f|o>` (spot / perpetual / future /
+//!                             option, the derivatives with contract sizes 10 / 0.1 / 100), added in the order
+//!                             given - `IndexedInstruments` sorts them exchange first, so the index order
+//!                             differs from the order of addition; trading state Enabled / Disabled at start;
+//!                             `<links>` = three letters `H|M`, the execution link of exchange label 0,1,2
+//!                             (`M`: the `MultiExchangeTxMap` slot is `None` - tracked but not traded).
+//!                             A fill on instrument index k is an account event of THAT instrument's exchange.
 //!   `fill <id> <instr> <time> <B|S> <price> <qty> <fee>`
 //!
 //! Observations: `exit …` (returned `PositionExited`), `pos …` (`PositionManager.current`) with every
@@ -27,7 +36,22 @@ use barter_execution::{
     order::id::{OrderId, StrategyId},
     trade::{AssetFees, Trade, TradeId},
 };
-use barter_instrument::{Side, asset::QuoteAsset, exchange::ExchangeIndex, instrument::InstrumentIndex};
+use barter_instrument::{
+    Side, Underlying,
+    asset::{Asset, QuoteAsset},
+    exchange::ExchangeIndex,
+    index::IndexedInstruments,
+    instrument::{
+        Instrument, InstrumentIndex,
+        kind::{
+            InstrumentKind,
+            future::FutureContract,
+            option::{OptionContract, OptionExercise, OptionKind},
+            perpetual::PerpetualContract,
+        },
+        quote::InstrumentQuoteAsset,
+    },
+};
 use rust_decimal::Decimal;
 use vh::{engine_util::*, *};
 
@@ -222,6 +246,76 @@ fn parse_trade(op: &[String]) -> Option<Trade<QuoteAsset, InstrumentIndex>> {
     })
 }
 
+/// `init enginex <E|D> <links> <spec>+` (see the module doc); `None` = malformed (`bad-op`).
+fn parse_enginex(op: &[String]) -> Option<(TradingState, [Link; 3], Vec<(usize, char)>)> {
+    if op.len() < 5 || op[0] != "init" || op[1] != "enginex" {
+        return None;
+    }
+    let trading = match op[2].as_str() {
+        "E" => TradingState::Enabled,
+        "D" => TradingState::Disabled,
+        _ => return None,
+    };
+    let l: Vec<char> = op[3].chars().collect();
+    if l.len() != 3 || l.iter().any(|c| *c != 'H' && *c != 'M') {
+        return None;
+    }
+    let link = |c: char| if c == 'H' { Link::Healthy } else { Link::Missing };
+    let mut specs = vec![];
+    for t in &op[4..] {
+        let c: Vec<char> = t.chars().collect();
+        if c.len() != 2 || !"012".contains(c[0]) || !"spfo".contains(c[1]) {
+            return None;
+        }
+        specs.push((c[0] as usize - '0' as usize, c[1]));
+    }
+    Some((trading, [link(l[0]), link(l[1]), link(l[2])], specs))
+}
+
+fn build_enginex(trading: TradingState, links: [Link; 3], specs: &[(usize, char)]) -> Built {
+    let usdt = || Asset::from("usdt");
+    let mut builder = IndexedInstruments::builder();
+    for (k, (ex, kind)) in specs.iter().enumerate() {
+        let kind = match kind {
+            's' => InstrumentKind::Spot,
+            'p' => InstrumentKind::Perpetual(PerpetualContract {
+                contract_size: Decimal::new(10, 0),
+                settlement_asset: usdt(),
+            }),
+            'f' => InstrumentKind::Future(FutureContract {
+                contract_size: Decimal::new(1, 1),
+                settlement_asset: usdt(),
+                expiry: time_ms(86_400_000),
+            }),
+            _ => InstrumentKind::Option(OptionContract {
+                contract_size: Decimal::new(100, 0),
+                settlement_asset: usdt(),
+                kind: OptionKind::Call,
+                exercise: OptionExercise::European,
+                expiry: time_ms(86_400_000),
+                strike: Decimal::new(100, 0),
+            }),
+        };
+        builder = builder.add_instrument(Instrument::new(
+            EXCHANGES[*ex],
+            format!("b{k}_usdt_x{ex}"),
+            format!("B{k}USDT"),
+            Underlying::new(format!("b{k}"), "usdt".to_string()),
+            InstrumentQuoteAsset::UnderlyingQuote,
+            kind,
+            None,
+        ));
+    }
+    let instruments = builder.build();
+    // build_engine wires links by ExchangeIndex: translate from the exchange labels
+    let by_index: Vec<Link> = instruments
+        .exchanges()
+        .iter()
+        .map(|e| links[EXCHANGES.iter().position(|x| *x == e.value).unwrap()])
+        .collect();
+    build_engine(&instruments, &by_index, trading)
+}
+
 fn run() {
     run_cases(|case, lines| {
         let mut mode = Mode::Unset;
@@ -246,6 +340,14 @@ fn run() {
                         );
                         accs = vec![Acc::default(); n];
                     }
+                    (Some("enginex"), _) => match parse_enginex(op) {
+                        Some((trading, links, specs)) => {
+                            let n = specs.len();
+                            mode = Mode::Engine(Box::new(build_enginex(trading, links, &specs)), n);
+                            accs = vec![Acc::default(); n];
+                        }
+                        None => lines.push("bad-op".into()),
+                    },
                     _ => lines.push("bad-op".into()),
                 }
                 continue;
@@ -283,8 +385,15 @@ fn run() {
                         None
                     };
                     let trade_id = trade.id.clone();
+                    // the account event comes from the exchange the instrument lives on (always 0 for
+                    // `init engine`; an unknown instrument keeps 0 and panics in the engine)
+                    let exchange = if k < *n {
+                        engine.state.instruments.instrument_index(&InstrumentIndex(k)).instrument.exchange
+                    } else {
+                        ExchangeIndex(0)
+                    };
                     let event: Event = EngineEvent::Account(AccountStreamEvent::Item(AccountEvent {
-                        exchange: ExchangeIndex(0),
+                        exchange,
                         kind: AccountEventKind::Trade(trade),
                     }));
                     let audit = std::panic::catch_unwind(std::panic::AssertUnwindSafe(|| {
@@ -658,6 +767,67 @@ fn gen_case_dom(rng: &mut Rng, out: &mut Out, id: String, tier: &str, class: u64
     }
 }
 
+/// Configuration-shape family (ids cfg*; own generator, everything above stays what it was): the engine is
+/// assembled from 1..6 instruments spread over 1..3 exchanges whose labels are a random subset of {0,1,2}
+/// (so exchange label != exchange index, and the order of addition != the exchange-first index order), of all
+/// four instrument kinds (derivatives with contract sizes 10 / 0.1 / 100), trading Enabled or Disabled at
+/// start, and every exchange's execution link present or absent (`None` slot: tracked but not traded). Fills
+/// are in-domain grid fills biased to closes / flips, spread over the instruments (some never filled).
+fn gen_case_cfg(rng: &mut Rng, out: &mut Out, id: String, tier: &str) {
+    out.case(id);
+    let labels: &[usize] = *rng.pick(&[&[0usize][..], &[1], &[2], &[0, 1], &[0, 2], &[1, 2], &[2, 0], &[0, 1, 2], &[2, 1, 0]]);
+    let n = rng.range(labels.len() as i64, 6) as usize;
+    let mut line = format!("init enginex {} ", if rng.chance(50) { "E" } else { "D" });
+    for _ in 0..3 {
+        line.push(if rng.chance(35) { 'M' } else { 'H' });
+    }
+    for k in 0..n {
+        // every chosen exchange gets at least one instrument, in the order of `labels`; the rest land anywhere
+        let ex = if k < labels.len() { labels[k] } else { *rng.pick(labels) };
+        line.push_str(&format!(" {ex}{}", *rng.pick(&['s', 's', 'p', 'f', 'o'])));
+    }
+    out.line(line);
+    let reg = if rng.chance(20) { &TINY } else { &GRID };
+    let len = rng.range(1, if tier == "thorough" { 60 } else { 30 });
+    let close_pct = *rng.pick(&[15u64, 30, 45]);
+    // now and then one instrument is never filled (tracked, silent)
+    let silent = if n > 1 && rng.chance(40) { Some(rng.below(n as u64) as usize) } else { None };
+    let mut nets = vec![0i64; n];
+    let mut time = 0i64;
+    for k in 0..len {
+        let mut slot = rng.below(n as u64) as usize;
+        if Some(slot) == silent {
+            slot = (slot + 1) % n;
+        }
+        let net = nets[slot];
+        let (side_buy, qty) = if net != 0 && rng.chance(close_pct) {
+            let q = match rng.below(6) {
+                0 | 1 | 2 => net.abs(),
+                3 => net.abs() * 2,
+                4 => net.abs() + *rng.pick(reg.qtys),
+                _ => (net.abs() / 2).max(1),
+            };
+            (net < 0, q)
+        } else {
+            (rng.chance(50), *rng.pick(reg.qtys))
+        };
+        let (pm, ps) = *rng.pick(reg.prices);
+        let (fm, fs) = *rng.pick(reg.fees);
+        if rng.chance(70) {
+            time += rng.range(1, 5);
+        }
+        out.line(format!(
+            "fill {} {slot} {time} {} {} {} {}",
+            k + 1,
+            if side_buy { "B" } else { "S" },
+            dec_str(pm, ps),
+            dec_str(qty, SCALE),
+            dec_str(fm, fs),
+        ));
+        nets[slot] += if side_buy { qty } else { -qty };
+    }
+}
+
 fn generate(seed: u64, n_cases: usize, tier: &str) {
     let mut out = Out::new();
     let mut rng = Rng::new(seed);
@@ -711,6 +881,12 @@ fn generate(seed: u64, n_cases: usize, tier: &str) {
     for _ in 0..n_long {
         id += 1;
         gen_case_dom(&mut dom, &mut out, format!("l{id}"), tier, 3);
+    }
+    // configuration-shape family (see gen_case_cfg), again from a generator of its own
+    let mut cfg = Rng::new(seed ^ 0xCF6_C02);
+    for _ in 0..n_cases / 6 + 4 {
+        id += 1;
+        gen_case_cfg(&mut cfg, &mut out, format!("cfg{id}"), tier);
     }
     out.flush();
 }
